@@ -88,6 +88,18 @@ def check_group(ctx, op, rng):
     ctx.check(np.array_equal(Z0f, U), "angularSpectrum:zero_distance_not_identity", "z = 0.0 does not return the input", wit)
     back = op.angularSpectrum(single, lam, d, d, -total)
     ctx.close("AS_inverse", back, U, (1e-12 + 8 * 2.3e-16 * 2 * np.pi * lam * abs(total) / (4 * d * d)) * mx * 50, "angularSpectrum:minus_z_does_not_undo_z", wit, scale=mx)
+    # a field stored in single precision (camera frames, complex64 / float32 arrays) is an input field like any other: the samples are
+    # exact numbers, and the laws hold to the rounding of the precision the propagator returns (complex128 on this code base)
+    for U32 in (U.astype(np.complex64), np.abs(U).astype(np.float32)):
+        s32 = np.asarray(op.angularSpectrum(U32, lam, d, d, total))
+        epsr = float(np.finfo(s32.dtype).eps) / 2.2e-16 if s32.dtype.kind in "fc" else 1.0
+        t32 = (1e-12 + 8 * 2.3e-16 * 2 * np.pi * lam * abs(total) / (4 * d * d)) * mx * 50 * max(1.0, epsr)
+        b32 = op.angularSpectrum(s32, lam, d, d, -total)
+        w32 = dict(wit, input_dtype=str(U32.dtype), output_dtype=str(s32.dtype))
+        ctx.count("single_precision_fields")
+        ctx.close("AS_inverse_single_precision_input", b32, U32.astype(complex), t32, "angularSpectrum:minus_z_does_not_undo_z:single_precision_field", w32, scale=mx)
+        ctx.close("AS_same_samples_other_dtype", s32, op.angularSpectrum(U32.astype(complex), lam, d, d, total), t32,
+                  "angularSpectrum:result_depends_on_container_dtype", w32, scale=mx)
     # magnification m then 1/m: input up to a constant phase (algebraic identity, any field)
     m = float(10 ** rng.uniform(-0.7, 0.7))
     z = float(rng.choice([-1, 1]) * zc * 10 ** rng.uniform(-1, 1))
